@@ -25,8 +25,81 @@ class _Prune(Flow):
         self.moves = moves  # id(call nodes) that are the 'remove' half of a todo -> doing move
         self.prunes = []
 
+    def _exec_flag(self, name, v, before_line):
+        """local `name` is the flag "<elem> in <v>.doing", taken before the removals"""
+        defs = [a.value for a in self.f.own_nodes() if isinstance(a, ast.Assign) and any(isinstance(t, ast.Name) and t.id == name for t in a.targets)]
+        return (
+            len(defs) == 1
+            and isinstance(defs[0], ast.Compare)
+            and len(defs[0].ops) == 1
+            and isinstance(defs[0].ops[0], ast.In)
+            and (gk := get_key(defs[0].comparators[0])) is not None
+            and gk[1] == 'doing'
+            and isinstance(gk[0], ast.Name)
+            and gk[0].id == v
+            and defs[0].lineno < before_line
+        )
+
+    def _semantic_prune(self, s: ast.If):
+        """truth table of the test over (todo non-empty, doing non-empty, queued, executing) of a candidate node variable:
+        a prune point is any test that (a) is true only for nodes with both sets empty and (b) is true for every queued
+        node with both sets empty that is not exempt as executing - whatever its syntactic form"""
+        import itertools as _it
+
+        removed = [
+            n.args[0].id
+            for n in ast.walk(ast.Module(body=s.body, type_ignores=[]))
+            if isinstance(n, ast.Call)
+            and isinstance(n.func, ast.Attribute)
+            and n.func.attr == 'remove'
+            and isinstance(n.func.value, (ast.Name, ast.Attribute))
+            and self.prog.resolve_in(n.func.value, self.f) == wsa.QUE
+            and n.args
+            and isinstance(n.args[0], ast.Name)
+        ]
+        for v in removed:
+            def ev(e, t, d, q, x):
+                if isinstance(e, ast.BoolOp):
+                    vals = [ev(u, t, d, q, x) for u in e.values]
+                    if any(u is None for u in vals):
+                        return None
+                    return all(vals) if isinstance(e.op, ast.And) else any(vals)
+                if isinstance(e, ast.UnaryOp) and isinstance(e.op, ast.Not):
+                    u = ev(e.operand, t, d, q, x)
+                    return None if u is None else not u
+                if isinstance(e, ast.Call) and isinstance(e.func, ast.Name) and e.func.id in ('len', 'bool') and e.args:
+                    return ev(e.args[0], t, d, q, x)
+                if isinstance(e, ast.Compare) and len(e.ops) == 1:
+                    if isinstance(e.left, ast.Name) and e.left.id == v and isinstance(e.comparators[0], (ast.Name, ast.Attribute)) and self.prog.resolve_in(e.comparators[0], self.f) == wsa.QUE:
+                        return q if isinstance(e.ops[0], ast.In) else (not q if isinstance(e.ops[0], ast.NotIn) else None)
+                    if isinstance(e.comparators[0], ast.Constant) and e.comparators[0].value == 0:
+                        u = ev(e.left, t, d, q, x)
+                        if u is None:
+                            return None
+                        return u if isinstance(e.ops[0], (ast.Gt, ast.NotEq)) else ((not u) if isinstance(e.ops[0], ast.Eq) else None)
+                gk = get_key(e)
+                if gk and isinstance(gk[0], ast.Name) and gk[0].id == v and gk[1] in ('todo', 'doing'):
+                    return t if gk[1] == 'todo' else d
+                if isinstance(e, ast.Name) and self._exec_flag(e.id, v, s.lineno):
+                    return x
+                return None
+
+            rows = {}
+            for t, d, q, x in _it.product((False, True), repeat=4):
+                rows[(t, d, q, x)] = ev(s.test, t, d, q, x)
+            if any(r is None for r in rows.values()):
+                continue
+            only_idle = all(not r or (not t and not d) for (t, d, q, x), r in rows.items())
+            all_idle = all(rows[(False, False, True, False)] for _ in (0,))
+            if only_idle and all_idle:
+                return v
+        return None
+
     def _prune_var(self, s: ast.If):
         """If statement that is a prune point -> variable name"""
+        v = self._semantic_prune(s)
+        if v is not None:
+            return v
         for v in sorted(names_in(s.test)):
             table = shared.predicate_table(s.test, v)
             if table is None:
